@@ -162,7 +162,7 @@ def run_case(case, prefix):
                 return False
             if corrupt:
                 return any(type(e).__name__ == "FailureProtocolEntity" for e in w.app.received)
-            return w.state() == "transport" and w.responders[final_conn].phase == "transport"
+            return w.state() == "transport" and len(w.responders) > final_conn and w.responders[final_conn].phase == "transport"
         sc.wait_until(ready, "session up")
         if corrupt:
             return
